@@ -176,10 +176,10 @@ def has_kind(schema: Schema, t, kinds) -> bool:
 
 def mk_enum(name: str, m: int):
     """Enum declaration with maximum m: enumerators 0 (if m>0), and m."""
-    vals = [("A", 0)] if m > 0 else []
+    vals = [(f"{name}_A", 0)] if m > 0 else []
     if m > 1:
-        vals.append(("B", 1))
-    vals.append(("Z", m))
+        vals.append((f"{name}_B", 1))
+    vals.append((f"{name}_Z", m))
     return vals
 
 
